@@ -277,6 +277,41 @@ def ctor_var(s, value):
     return V.List(data_format(s), value)
 
 
+def boundary_values(count):
+    """python values of every form whose length (bytes / characters / digits / members) is count-1, count, count+1"""
+    out = []
+    for n in sorted({max(count - 1, 0), count, count + 1}):
+        out += [("bytes", [0x41 + i % 26 for i in range(n)]), ("bytes", [0xC0 + i % 32 for i in range(n)]), ("ba", [0x30 + i % 10 for i in range(n)]),
+                ("str", [0x61 + i % 26 for i in range(n)]), ("str", [0xE9] * n), ("list", [("int", 0x41 + i % 26) for i in range(n)]),
+                ("tuple", [("int", i % 2) for i in range(n)]), ("list", [("bool", i % 2) for i in range(n)])]
+        if n >= 1:
+            out += [("int", 10 ** (n - 1)), ("int", 10 ** n - 1)]
+        if n >= 2:
+            out.append(("int", -(10 ** (n - 2))))
+    out += [("bool", 1), ("bool", 0), ("int", 0), ("int", 255)]
+    return out
+
+
+def accepts(cls, count, x) -> bool:
+    try:
+        cls(count=count).set(x)
+        return True
+    except Exception:  # noqa: BLE001
+        return False
+
+
+def reference_type(classes, count, x):
+    """the documented choice of `Dynamic`: the first declared type whose preferred Python types include the value's and which
+    accepts the value, else the first declared type that accepts it — with acceptance decided by the class's own `set()`"""
+    for c in classes:
+        if isinstance(x, tuple(c.preferred_types)) and accepts(c, count, x):
+            return c
+    for c in classes:
+        if accepts(c, count, x):
+            return c
+    return None
+
+
 NUL_TEXTS = [[0], [0, 0, 0], [65, 66, 0, 0, 0], [0, 65, 0], [0] * 16, [82, 69, 67, 0, 0, 0, 0, 0], [32, 0], [0, 0, 65]]
 
 
